@@ -107,7 +107,8 @@ struct RunRec { int ev; long long t; long seq; bool ret; };
 struct EvRec { Kind kind; int delay; long long t_call = -1; long seq_call = 0, seq_ret = 0; bool ok = false; std::vector<int> runs; };
 struct ClrRec { long seq_call = 0, seq_ret = 0; long long t = 0; size_t n = 0; };
 static std::vector<RunRec> rlog; static std::vector<EvRec> evs; static std::vector<ClrRec> clrs; static long gseq = 0;
-static const long long MS = 1000000LL;
+static long long MS = 1000000LL;	// one unit of the script alphabet in ns: 1 ms times the scale
+static int SC = 1;	// scale=K: granularity, delays, intervals, sleeps and the horizon are all K ms units (scale=1000: intervals of 1, 2 and 5 seconds)
 static int HORIZON = 12, SLACK = 2;
 static std::vector<Step> SCRIPT;
 
@@ -120,7 +121,7 @@ struct Mon {
 		e.runs.push_back((int)rlog.size()); rlog.push_back(RunRec { i, vs_now(), ++gseq, ret });
 		const bool slow = e.kind == K_SLOW;
 		VS_BOOKKEEPING_END();
-		if (slow) hypersleep<h_milliseconds>(SLOW_MS);	// a callback that takes time (the timer's lock is held meanwhile, as the library documents)
+		if (slow) hypersleep<h_milliseconds>(SLOW_MS * SC);	// a callback that takes time (the timer's lock is held meanwhile, as the library documents)
 		return ret;
 	}
 	template<int I> bool cb() { return fire(I); }
@@ -138,7 +139,7 @@ static std::string body()
 	rlog.reserve(256); clrs.reserve(8);
 	Mon mon;
 	const long long t0 = vs_now();
-	Timer<Mon> *tm = new Timer<Mon>(mon, 1);
+	Timer<Mon> *tm = new Timer<Mon>(mon, 1 * SC);
 	tm->start();
 	int nev = 0;
 	for (auto& s : SCRIPT) {
@@ -146,10 +147,10 @@ static std::string body()
 			EvRec& e = evs[nev];
 			TimerEvent<Mon> te(CB[nev], is_rep(s.kind));
 			VS_BOOKKEEPING_BEGIN(); e.t_call = vs_now(); e.seq_call = ++gseq; VS_BOOKKEEPING_END();
-			const bool ok = tm->schedule(te, (unsigned)s.ms);
+			const bool ok = tm->schedule(te, (unsigned)(s.ms * SC));
 			VS_BOOKKEEPING_BEGIN(); e.ok = ok; e.seq_ret = ++gseq; ++nev; VS_BOOKKEEPING_END();
 		}
-		else if (s.kind == K_SLEEP) hypersleep<h_milliseconds>((unsigned)s.ms);
+		else if (s.kind == K_SLEEP) hypersleep<h_milliseconds>((unsigned)(s.ms * SC));
 		else { ClrRec c; VS_BOOKKEEPING_BEGIN(); c.seq_call = ++gseq; c.t = vs_now(); VS_BOOKKEEPING_END(); c.n = tm->clear(); VS_BOOKKEEPING_BEGIN(); c.seq_ret = ++gseq; clrs.push_back(c); VS_BOOKKEEPING_END(); }
 	}
 	const long long hz = t0 + HORIZON * MS;
@@ -232,8 +233,9 @@ static bool clock_is_virtual()
 	if (Tickval::get_tickval().get_ticks() != a) return false;
 	Tickval t; t.now(); if (t.get_ticks() != a) return false;
 	hypersleep<h_milliseconds>(3);
-	if (vs_now() != a + 3 * MS || Tickval::get_tickval().get_ticks() != a + 3 * MS) return false;
-	timespec ts; clock_gettime(CLOCK_MONOTONIC, &ts); if (ts.tv_sec * 1000000000LL + ts.tv_nsec != a + 3 * MS) return false;
+	const long long MS1 = 1000000LL;
+	if (vs_now() != a + 3 * MS1 || Tickval::get_tickval().get_ticks() != a + 3 * MS1) return false;
+	timespec ts; clock_gettime(CLOCK_MONOTONIC, &ts); if (ts.tv_sec * 1000000000LL + ts.tv_nsec != a + 3 * MS1) return false;
 	vs_set_now(a); return true;
 }
 
@@ -247,7 +249,7 @@ int main(int argc, char **argv)
 #endif
 	// a complete execution has < 200 points (length 5); a timer thread that spins without letting time pass ends as STEPLIMIT here
 	vs_set_max_steps(R.args.num("steplimit", 4000));
-	HORIZON = (int)R.args.num("horizon", 12); SLACK = (int)R.args.num("slack", 2);
+	HORIZON = (int)R.args.num("horizon", 12); SLACK = (int)R.args.num("slack", 2); SC = (int)R.args.num("scale", 1); MS *= SC;
 	if (!clock_is_virtual()) { fprintf(stderr, "c31_timer: a clock read by Tickval/hypersleep escapes the virtual clock (no verdict)\n"); return 2; }
 	std::set<std::string> distinct; long long with_callback = 0;
 	auto tags_of = [&](const std::string& id) {
